@@ -75,14 +75,16 @@ pub open spec fn jcol(u: MatR, d: MatR, c: MatR) -> Seq<real> {
   vecm(msub(mmul(u, mmul(mtr(u), mmul(d, c))), mmul(d, c)))
 }
 
+pub open spec fn col_ok<M: Model>(ji: Set<int>, je: Seq<Seq<real>>, m: &M, u: MatR, c: MatR, q: int) -> bool {
+  ji.contains(q) && m.sp_deriv(q).is_some() && je[q] == jcol(u, m.sp_deriv(q).unwrap(), c)
+}
 impl<M: Model> P<M> {
   fn jacobian(&self) -> (res: Option<DMatrix>)
     requires self.model.sp_len() * self.ncols_y <= usize::MAX,
     ensures res matches Some(j) ==> {
        &&& self.cached.is_some() && self.cached.unwrap().current_svd.u.is_some()
        &&& j@.c == self.model.sp_pc()
-       &&& forall |k:int| 0 <= k < j@.c ==> j.initd().contains(k) && self.model.sp_deriv(k).is_some() &&
-             #[trigger] j@.e[k] == jcol(self.cached.unwrap().current_svd.u.unwrap()@, self.model.sp_deriv(k).unwrap(), self.cached.unwrap().linear_coefficients@)
+       &&& forall |k:int| 0 <= k < j@.c ==> #[trigger] col_ok(j.initd(), j@.e, &self.model, self.cached.unwrap().current_svd.u.unwrap()@, self.cached.unwrap().linear_coefficients@, k)
     }
   {
         if let Some(Cached {
@@ -99,13 +101,15 @@ impl<M: Model> P<M> {
             let __n = jacobian_matrix.ncols();
             let mut k: usize = 0;
             while k < __n
+              invariant_except_break
+                result.is_ok(),
+                forall |q:int| 0 <= q < k ==> #[trigger] col_ok(jacobian_matrix.initd(), jacobian_matrix@.e, &self.model, U@, linear_coefficients@, q)
               invariant __n == jacobian_matrix@.c, k <= __n, jacobian_matrix@.e.len() == __n,
                 jacobian_matrix@.r == self.model.sp_len() * self.ncols_y,
                 __n == self.model.sp_pc(),
                 U_t@ == mtr(U@),
-                result.is_ok(),
-                forall |q:int| 0 <= q < k ==> jacobian_matrix.initd().contains(q) && self.model.sp_deriv(q).is_some() &&
-                  #[trigger] jacobian_matrix@.e[q] == jcol(U@, self.model.sp_deriv(q).unwrap(), linear_coefficients@)
+              ensures
+                result.is_ok() ==> (k == __n && forall |q:int| 0 <= q < __n ==> #[trigger] col_ok(jacobian_matrix.initd(), jacobian_matrix@.e, &self.model, U@, linear_coefficients@, q))
               decreases __n - k
             {
                 let mut jacobian_col = jacobian_matrix.__take_column(k);
@@ -114,7 +118,11 @@ impl<M: Model> P<M> {
                 let minus_ak = m_sub(m_mul(U, &m_mul(&U_t, &Dk_C)), Dk_C);
                 assume(minus_ak@.r * minus_ak@.c == jacobian_col.len());
                 copy_matrix_to_column(minus_ak, &mut jacobian_col);
+                let ghost pre = jacobian_matrix;
                 jacobian_matrix.__put_column(k, jacobian_col);
+                assert forall |q:int| 0 <= q < k + 1 implies #[trigger] col_ok(jacobian_matrix.initd(), jacobian_matrix@.e, &self.model, U@, linear_coefficients@, q) by {
+                  if q < k { assert(col_ok(pre.initd(), pre@.e, &self.model, U@, linear_coefficients@, q)); }
+                }
                 k = k + 1;
             }
             result.ok()?;
